@@ -65,6 +65,13 @@ def run(res, tier):
         how = None
         if len(refs) == 1 and len(rets) == 1 and rets[0]['ch']:
             e = A.strip_casts(rets[0]['ch'][0])
+            # the comparison may be held in a local that is defined once and returned (`const bool last = (--_count == 0); return last;`)
+            for _hop in range(2):
+                if e['k'] == 'DeclRefExpr' and 'd' in e:
+                    dfs = [v for v in f.walk() if v['k'] == 'VarDecl' and v.get('d') == e['d'] and v['ch']]
+                    asg = [n for n in f.walk() if n['k'] == 'BinaryOperator' and n.get('op') in A.ASSIGN_OPS and A.strip_casts(n['ch'][0]).get('d') == e['d']]
+                    if len(dfs) == 1 and not asg:
+                        e = A.strip_casts(dfs[0]['ch'][0])
             if e['k'] == 'BinaryOperator' and e.get('op') == '==' and 'v' in e['ch'][1]:
                 rmw = A.strip_casts(e['ch'][0])
                 opn = (rmw.get('q') or '').split('::')[-1]
